@@ -1097,6 +1097,93 @@ func weights(over map[string]int) map[string]int {
 	return out
 }
 
+// runRefreshRetransmitted: the answer to a Refresh is lost (the server's socket write fails), the
+// client retransmits the same request one to three seconds later and is told LIFETIME n then:
+// the allocation is there one second before that lifetime ends, counted from the answer the
+// client got, and gone one second after it.
+func runRefreshRetransmitted(t *testing.T, rng *rand.Rand, rec *sim.Rec, tier string, caseNo int) {
+	cfg := sim.Config{
+		Realm: "verif.test", Users: map[string]string{"alice": "pw-a"},
+		UDPListeners: []*net.UDPAddr{{IP: sim.ServerIP4, Port: 3478}},
+		Lifetime:     pick(rng, []time.Duration{0, 45 * time.Second, 25 * time.Minute}),
+	}
+	w, err := sim.NewWorld(cfg, rec, rng, true)
+	if err != nil {
+		t.Fatal(err)
+	}
+	defer w.Shutdown()
+	m := sim.NewModel(w)
+	c, err := w.NewUDPClient("c0", net.IPv4(10, 1, 0, 1).To4(), 5000, 0, "alice")
+	if err != nil {
+		t.Fatal(err)
+	}
+	if r := m.Allocate(c, sim.AllocOpts{}); r == nil || r.Class != wire.ClassSuccess {
+		rec.Inconclusive("allocate failed")
+
+		return
+	}
+	w.Sleep(time.Duration(1+rng.Intn(20)) * time.Second)
+	n := uint32(pick(rng, []int{10, 30, 59, 600, 3599}))
+	tid := w.NewTID()
+	b := wire.NewBuilder(wire.MethodRefresh, wire.ClassRequest, tid)
+	b.AddU32(wire.AttrLifetime, n)
+	c.AddAuth(b)
+	raw := b.Bytes()
+	sock := w.ServerUDP[0]
+	failed := false
+	sock.SetWriteHook(func(p []byte, _ net.Addr) (int, error, bool) {
+		if msg, err := wire.ParseSTUN(p); err == nil && msg.TID == tid && !failed {
+			failed = true
+
+			return 0, errors.New("injected: no buffer space available"), true
+		}
+
+		return 0, nil, false
+	})
+	m.Track(c, tid, wire.MethodRefresh)
+	first := c.Exchange(raw, tid)
+	sock.SetWriteHook(nil)
+	if first != nil || !failed {
+		rec.Inconclusive("the first answer was not lost")
+
+		return
+	}
+	gap := time.Duration(2+rng.Intn(3)) * time.Second
+	w.Sleep(gap)
+	m.Retransmitted(c, tid)
+	second := c.Exchange(raw, tid)
+	m.Audit(nil)
+	if second == nil || second.Class != wire.ClassSuccess {
+		rec.Violate("refresh-unexpected", "retransmitted", "a Refresh retransmitted %v after its first answer was lost in the server's socket was answered %d", gap, codeOfMsg(second))
+
+		return
+	}
+	lt, _ := second.Lifetime()
+	if lt != n {
+		rec.Violate("refresh-lifetime-rule", "retransmitted", "retransmitted Refresh(%d) answered LIFETIME %d", n, lt)
+	}
+	exists := func() bool {
+		for _, mgr := range w.Srv.VerifManagers() {
+			snap, _, _ := mgr.VerifSnapshot()
+			if len(snap) > 0 {
+				return true
+			}
+		}
+
+		return false
+	}
+	w.Sleep(time.Duration(lt)*time.Second - time.Second)
+	if !exists() {
+		rec.Violate("alloc-expiry-early", "refresh-retransmitted", "the client was told LIFETIME %d by the answer to its retransmitted Refresh (%v after the first transmission); the allocation was gone 1 s before that lifetime ended", lt, gap)
+	}
+	w.Sleep(2 * time.Second)
+	if exists() {
+		rec.Violate("alloc-expiry-late", "refresh-retransmitted", "the allocation is still there 1 s after the LIFETIME %d of the last Refresh answer ended", lt)
+	}
+	rec.FP("refresh-retransmitted/gap=%v/lifetime=%d", gap, n)
+	rec.SetSample(map[string]any{"kind": "refresh-retransmitted", "gap": gap.String(), "lifetime": n})
+}
+
 func histProp(cases map[string]int, k Knobs) PropDef {
 	return PropDef{
 		Bubble: true,
@@ -1110,6 +1197,11 @@ func histProp(cases map[string]int, k Knobs) PropDef {
 			}
 			if k.SlowConnectEvery > 0 && caseNo%k.SlowConnectEvery == k.SlowConnectEvery-2 {
 				runSlowConnect(t, rng, rec, tier, caseNo)
+
+				return
+			}
+			if k.SlowConnectEvery > 0 && caseNo%k.SlowConnectEvery == k.SlowConnectEvery-3 {
+				runRefreshRetransmitted(t, rng, rec, tier, caseNo)
 
 				return
 			}
